@@ -114,15 +114,23 @@ def check_uf_union(chk, prog, R):
                   "; ".join(probs), f"{f.file}:{s[3]}")
 
 
-def _operand_defs(fn, o, depth=4):
-    """definitions reaching operand o (through plain copies)"""
+def _operand_defs(fn, o, depth=5):
+    """definitions reaching operand o (through plain copies and through fields of tuple/struct
+    aggregates: `let (p, c) = if a < b { (a, b) } else { (b, a) }`)"""
     for _ in range(depth):
-        if o[0] not in ("c", "m") or o[1][1]:
+        if o[0] not in ("c", "m"):
+            return []
+        if o[1][1]:
+            # projection: expand aggregate definitions field-sensitively
+            pj = [e for e in o[1][1] if not isinstance(e, str)]
+            if len(pj) == 1 and pj[0][0] == "f":
+                ds = [(bb, idx, kind, payload) for (bb, idx, dproj, kind, payload) in fn.defs.get(o[1][0], []) if not dproj]
+                if ds and all(k == "a" and p[0] == "agg" and p[1] in ("tuple", "adt") and pj[0][1] < len(p[4]) for (_, _, k, p) in ds):
+                    return [(bb, idx, "a", ["use", p[4][pj[0][1]]]) for (bb, idx, k, p) in ds]
             return []
         ds = [(bb, idx, kind, payload) for (bb, idx, dproj, kind, payload) in fn.defs.get(o[1][0], []) if not dproj]
-        if len(ds) == 1 and ds[0][2] == "a" and ds[0][3][0] == "use" and ds[0][3][1][0] in ("c", "m") and not ds[0][3][1][1][1]:
+        if len(ds) == 1 and ds[0][2] == "a" and ds[0][3][0] == "use" and ds[0][3][1][0] in ("c", "m"):
             o = ds[0][3][1]
-            # if the copied-from local is itself multiply defined, return its defs
             continue
         return ds
     return []
